@@ -192,6 +192,19 @@ def rule_tokens(r, rnd) -> Toks:
 _WS = [" ", "  ", "\t", "\n", "\r\n", "\x0c", " \n  "]
 
 
+_COMMENT_FIXED = ["", " c", " x = 'y' ;", "@export", " é\t"]
+_COMMENT_CHARS = list("abcXYZ09 #@;:'\"\\|{}[]()<>=*$!&.\t\r\x0b\x0c\x00\x7f") + [
+    "é", "ß", "\u0085", "\u00a0", "日", "\u2028", "\u2029", "\ufeff", "\ufffd", "\uffff", "\ud7ff", "\ue000",
+    "\U00010000", "😀", "\U0001d410", "\U000e0001", "\U0010ffff", "\u0301"]
+
+
+def _comment_text(rnd):
+    """anything but a line feed may stand in a comment"""
+    if rnd.random() < 0.4:
+        return rnd.choice(_COMMENT_FIXED)
+    return "".join(rnd.choice(_COMMENT_CHARS) for _ in range(rnd.randint(1, 10)))
+
+
 def _gap(rnd, need, level):
     """random gap text; `need` = a separator is required"""
     if rnd is None:
@@ -203,7 +216,7 @@ def _gap(rnd, need, level):
     n = 1 if rnd.random() < 0.7 else rnd.randint(1, 3)
     for _ in range(n):
         if level >= 2 and rnd.random() < 0.15:
-            parts.append("#" + rnd.choice(["", " c", " x = 'y' ;", "@export", " é\t"]) + "\n")
+            parts.append("#" + _comment_text(rnd) + "\n")
         else:
             parts.append(rnd.choice(_WS))
     return "".join(parts)
